@@ -5,6 +5,7 @@ package vfapi
 // implementation: values come from the solver model in $VF_MODEL.
 
 import (
+	"time"
 	"runtime"
 	"encoding/json"
 	"fmt"
@@ -215,3 +216,6 @@ func vfWaitFor(cond func() bool) {
 		vfGosched()
 	}
 }
+
+// vfIdle blocks until no other goroutine can run (engine); natively a short sleep.
+func vfIdle() { time.Sleep(2 * time.Millisecond) }
